@@ -14,5 +14,6 @@ def run(ctx):
         return obs
     obs += cp.sourcemap_rules(ctx, 'C19')
     obs += cp.sep_rule(ctx, 'C19')
+    obs += cp.separator_condition_rule(ctx, 'C19')
     obs += cp.step_rules(ctx, 'C19')
     return obs
